@@ -112,8 +112,8 @@ func stepShape(fn *FuncNode) []string {
 }
 
 func checkC10(r *Run) {
-	r.Explanation = "Structural necessary conditions of 'forward and backward steps return exactly the stored samples of the reported view and a traversal visits every sample once': (R1) the forward and backward members of each pair of the unary iterator - Next/Prev, SeekFirst/SeekLast, SeekLE/SeekGE - are time mirrors of each other: their guard conditions, view updates and calls on the domain iterator agree item by item once Start/End, Before/After, BeforeEq/AfterEq, Next/Prev, the seek variants and the sign of the span are exchanged (an inclusive bound on one side and an exclusive one on the other makes one direction skip or repeat a domain at an exact boundary); (R2) cesium.streamIterator.exec dispatches every command accepted by validateIteratorCommand to the unary method of the same name."
-	r.NotDecided = "The arithmetic of views, sample offsets and index approximations (autoNext/autoPrev, sliceDomain, Distance/Stamp): values. That the forward direction itself is right is not decided - only that both directions agree."
+	r.Explanation = "Structural necessary conditions of 'forward and backward steps return exactly the stored samples of the reported view and a traversal visits every sample once': (R2) cesium.streamIterator.exec dispatches every command accepted by validateIteratorCommand to the unary method of the same name; (R3) unary.Iterator.SetBounds stores its argument and hands that same range to the domain iterator. Reported as information only (it decides nothing, because a rewrite of one direction alone differs textually too): whether the forward and backward members of Next/Prev, SeekFirst/SeekLast, SeekLE/SeekGE read as time mirrors of each other item by item."
+	r.NotDecided = "The arithmetic of views, sample offsets and index approximations (autoNext/autoPrev, sliceDomain, Distance/Stamp), and the agreement of the two directions: values and a textual comparison that cannot be a verdict."
 	r.Trusted = []string{"go/types, syntax trees of the paired methods"}
 	r.Extra["module"] = "cesium"
 	p, err := Load("cesium")
